@@ -111,7 +111,7 @@ class C14(Check):
         out = Outcome()
         env.state["k"] += 1
         patches.deterministic_iv(env.seed * 977 + env.shard * 101 + env.state["k"])
-        work = os.path.join(env.scratch, "c14-%d" % env.state["k"])
+        work = env.tmpdir("c14-")
         src = os.path.join(work, "src")
         os.makedirs(src)
         names = list(case["names"])
